@@ -327,6 +327,15 @@ theorem sameParent_of_wc {g1 g2 : GState} (h : wc g1 [] = wc g2 []) : SameParent
   have h7 : g1.last = g2.last := by have := congrArg GState.last h; exact this
   exact ⟨h1, h2, h3, h4, by simp only [ensureSecret_eq, h1, h5], h6, h7⟩
 
+/-- what equality up to the consumed list says field by field -/
+theorem wc_fields {g1 g2 : GState} (h : wc g1 [] = wc g2 []) :
+    g1.path = g2.path ∧ g1.members = g2.members ∧ g1.admins = g2.admins ∧ g1.name = g2.name ∧
+    g1.recEpoch = g2.recEpoch ∧ g1.recName = g2.recName ∧ g1.recAdmins = g2.recAdmins ∧
+    g1.pending = g2.pending ∧ g1.props = g2.props ∧ g1.secrets = g2.secrets ∧ g1.past = g2.past ∧ g1.last = g2.last := by
+  have f : ∀ {α : Type} (π : GState → α), π (wc g1 []) = π (wc g2 []) := fun π => congrArg π h
+  exact ⟨f GState.path, f GState.members, f GState.admins, f GState.name, f GState.recEpoch, f GState.recName,
+    f GState.recAdmins, f GState.pending, f GState.props, f GState.secrets, f GState.past, f GState.last⟩
+
 theorem childOfG_congr (mp : Nat) (g1 g2 : GState) (a : Ev) (b : Body) (sw : List Nat) (hk : a.kind = .commit b sw)
     (h : SameParent g1 g2) : wc (childOfG mp g1 a) [] = wc (childOfG mp g2 a) [] := by
   have s := h.secrets
@@ -724,5 +733,44 @@ theorem chain_run (nx : Nat) (c : Cl) (w : Ev) (T l : List Ev) (rest : List Leve
     ChainDone c ((w, T) :: rest) (run nx c (l ++ ls.flatten)) :=
   chain_step nx c w T l rest ls.flatten _ hat hbelow hmin hcov hcross hchain hu (run_append nx c l _)
     (fun c1 hr1 hch1 hu1 => chain_rest nx rest c1 ls hr1 hch1 hu1 hw)
+
+/-! ## decidable forms of the event conditions (for closed examples) -/
+
+instance (w : Ev) (S : List Ev) : Decidable (IsMin w S) := by unfold IsMin; infer_instance
+instance (S l : List Ev) : Decidable (Covers S l) := by unfold Covers; infer_instance
+
+instance decLevelWise : ∀ (Ls : List Level) (ls : List (List Ev)), Decidable (LevelWise Ls ls)
+  | [], [] => isTrue trivial
+  | [], _ :: _ => isFalse (fun h => h)
+  | _ :: _, [] => isFalse (fun h => h)
+  | L :: Ls, l :: ls => by
+    unfold LevelWise
+    exact @instDecidableAnd _ _ _ (decLevelWise Ls ls)
+
+/-- a commit by an admin, or a pure self-update -/
+def authCommit (admins : List Nat) (e : Ev) : Bool :=
+  match e.kind with
+  | .commit b sw => admins.contains e.sender || isPureSelfUpdate b sw
+  | _ => false
+
+theorem authCommit_kind {admins : List Nat} {e : Ev} (h : authCommit admins e = true) :
+    ∃ b sw, e.kind = .commit b sw ∧ (admins.contains e.sender || isPureSelfUpdate b sw) = true := by
+  unfold authCommit at h
+  split at h
+  · rename_i b sw hk; exact ⟨b, sw, hk, h⟩
+  · cases h
+
+theorem levelEv_of_dec (id : Nat) (admins : List Nat) (p : Path) (S : List Ev)
+    (h1 : ∀ e ∈ S, e.path = p) (h2 : ∀ e ∈ S, authCommit admins e = true) (h3 : ∀ e ∈ S, e.sender ≠ id)
+    (h4 : ∀ e ∈ S, e.ts ≠ 0)
+    (h5 : ∀ e1 ∈ S, ∀ e2 ∈ S, e1 ≠ e2 → e1.n ≠ e2.n ∧ (e1.ts, e1.idnum) ≠ (e2.ts, e2.idnum) ∧ e1.cipher ≠ e2.cipher) :
+    LevelEv id admins p S := ⟨h1, fun e he => authCommit_kind (h2 e he), h3, h4, h5⟩
+
+theorem siblings_of_dec (c : Cl) (S : List Ev)
+    (h1 : ∀ e ∈ S, e.path = c.g.path) (h2 : ∀ e ∈ S, authCommit c.g.admins e = true) (h3 : ∀ e ∈ S, e.sender ≠ c.id)
+    (h4 : ∀ e ∈ S, e.ts ≠ 0)
+    (h5 : ∀ e1 ∈ S, ∀ e2 ∈ S, e1 ≠ e2 → e1.n ≠ e2.n ∧ (e1.ts, e1.idnum) ≠ (e2.ts, e2.idnum) ∧ e1.cipher ≠ e2.cipher)
+    (h6 : ∀ e ∈ S, getRec c e.n = none ∧ e.cipher ∉ c.g.consumed) : Siblings c S :=
+  siblings_of_levelEv c S (levelEv_of_dec c.id c.g.admins c.g.path S h1 h2 h3 h4 h5) h6
 
 end MdkVerif.Chain
